@@ -52,7 +52,10 @@ def run(ctx):
     jobs.append((kind, 'C17-%s-directed-%s' % (kind, name), clsmap, hist, ctx.seed, q))
   if ctx.only_sid:
     jobs = [j for j in jobs if ctx.only_sid.startswith(j[1])]
-  results = scen.run_parallel_fn(scen.run_scenario_c17, jobs, procs=5)
+  import multiprocessing as mp
+  # every call of every scenario forks four settings up front; at most this many of them run at a time (each may hold a 2 GB table)
+  scen.FORK_SLOTS = mp.get_context('fork').BoundedSemaphore(12 if q else 6)
+  results = scen.run_parallel_fn(scen.run_scenario_c17, jobs, procs=5 if q else 4)
   recs = []
   for sid, rs, err in results:
     if err:
